@@ -115,7 +115,7 @@ pub fn run(ctx: &Arc<Ctx>) {
     let pr = sm9::params();
     let n = pr.n.clone();
     let _ = g0();
-    ctx.set_rule("P = [b]P1, Q = [a]P2 for a, b in {1,2,3,N-1,N-2,2^128,Annex ks,seeded}: full product a x b with both inputs affine, compared byte for byte (384 bytes) with e(P1,P2)^(ab) computed by the reference; the diagonal and a spread of pairs additionally against a full reference evaluation (generic Miller loop over 6t+2, two Frobenius steps, exponent (p^12-1)/N) on those very points; every pair again with Jacobian inputs Z != 1 (P, Q, both); identity arguments (a or b = 0 mod N) give 1; bilinearity re-evaluated with the library's own GT exponentiation incl. exponents with all-zero 64-bit limbs; e(P1,P2) != 1 and of order N; the GM/T 0044.5 value of e(P1,Ppub-s).");
+    ctx.set_rule("P = [b]P1, Q = [a]P2 for a, b in {1,2,3,N-1,N-2,2^128,Annex ks,seeded}: full product a x b with both inputs affine, compared byte for byte (384 bytes) with e(P1,P2)^(ab) computed by the reference; the diagonal and a spread of pairs additionally against a full reference evaluation (generic Miller loop over 6t+2, two Frobenius steps, exponent (p^12-1)/N) on those very points; every pair again with Jacobian inputs Z != 1 (P, Q, both); structured Z (Q.z in Fp, purely imaginary, P.z in {2, p-1}); identity arguments (a or b = 0 mod N) give 1; bilinearity re-evaluated with the library's own GT exponentiation incl. exponents with all-zero 64-bit limbs and the boundary exponents N-1, N-2; e(P1,P2) != 1 and of order N; the GM/T 0044.5 value of e(P1,Ppub-s).");
     let mut g = SplitMix::new(ctx.seed, "c12");
     let nseed = ctx.tier.pick(4usize, 26);
     let mut sc: Vec<(String, BigUint)> = vec![
@@ -170,6 +170,28 @@ pub fn run(ctx: &Arc<Ctx>) {
             ctx.machinery_error("no pairing value with a leading zero coefficient byte found");
         }
     }
+    // structured Z for the Jacobian inputs: Q.z in the base field (c1 = 0, != 1), purely imaginary (c0 = 0), generic;
+    // P.z in {2, p-1}. A shortcut taken for "affine-looking" Z must not change the value.
+    {
+        let z = hexbig(&BigUint::zero());
+        let zq: Vec<[String; 2]> = vec![
+            [hexbig(&BigUint::from(2u32)), z.clone()],
+            [hexbig(&(&pr.p - 1u32)), z.clone()],
+            [hexbig(&g.nonzero_below(&pr.p)), z.clone()],
+            [z.clone(), hexbig(&BigUint::one())],
+            [z.clone(), hexbig(&g.nonzero_below(&pr.p))],
+            [hexbig(&BigUint::one()), hexbig(&BigUint::one())],
+        ];
+        let zp = [one1.clone(), hexbig(&BigUint::from(2u32)), hexbig(&(&pr.p - 1u32))];
+        let pairs = [(BigUint::one(), BigUint::one()), (sc[7].1.clone(), sc[8].1.clone()), (&n - 1u32, BigUint::from(2u32))];
+        for (a, b) in &pairs {
+            for la in &zq {
+                for lb in &zp {
+                    cases.push(Case::Pair { a: hexbig(a), b: hexbig(b), la: la.clone(), lb: lb.clone(), full: false, tag: "structured-Z".into() });
+                }
+            }
+        }
+    }
     // identity arguments: a or b = 0 mod N
     for (an, a) in [("0", BigUint::zero()), ("N", n.clone()), ("3", BigUint::from(3u32))] {
         for (bn, b) in [("0", BigUint::zero()), ("N", n.clone()), ("5", BigUint::from(5u32))] {
@@ -180,7 +202,7 @@ pub fn run(ctx: &Arc<Ctx>) {
         }
     }
     // bilinearity with the library's own exponentiation, incl. exponents with all-zero 64-bit limbs
-    let zl: Vec<BigUint> = vec![BigUint::one() << 64usize, (BigUint::one() << 128usize) + 1u32, (BigUint::from(0x1234u32) << 192usize) + 15u32, BigUint::from(7u32), g.nonzero_below(&n)];
+    let zl: Vec<BigUint> = vec![BigUint::one() << 64usize, (BigUint::one() << 128usize) + 1u32, (BigUint::from(0x1234u32) << 192usize) + 15u32, BigUint::from(7u32), g.nonzero_below(&n), &n - 1u32, &n - 2u32];
     for a in &zl {
         for b in [BigUint::one(), BigUint::from(2u32)] {
             cases.push(Case::Bilinear { a: hexbig(a), b: hexbig(&b) });
